@@ -253,6 +253,9 @@ func classify(a *metax.Inst, cmd metax.Cmd, ra, rb metax.Result, diff []string, 
 		return "recover_metadata_on_fresh_store"
 	case noSki && diff == nil && (cmd.Kind == "CreateShardGroup" || cmd.Kind == "CreateMeasurement" || cmd.Kind == "AlterShardKey"):
 		return "maporder_measurement_without_shardkey"
+	case mixed && diff != nil && (cmd.Kind == "ExpandGroups" || cmd.Kind == "CreateDataNode"):
+		// ExpandGroups skips a policy whose first-of-map measurement is range-sharded
+		return "maporder_mixed_sharding_types"
 	case mixed && !noSki && diff == nil && (cmd.Kind == "CreateShardGroup" || cmd.Kind == "CreateMeasurement" || cmd.Kind == "AlterShardKey"):
 		// a name re-created with another sharding type while its old incarnation is still in the
 		// policy (marked deleted): measurements of both types, the first of the map decides
